@@ -2,11 +2,15 @@ package main
 
 import (
 	"bufio"
+	"bytes"
+	"context"
 	"encoding/json"
 	"flag"
 	"fmt"
 	"os"
+	"os/exec"
 	"path/filepath"
+	"regexp"
 	"sort"
 	"strconv"
 	"strings"
@@ -213,6 +217,7 @@ type runOut struct {
 	unsupp    map[string][]string
 	encSecs   float64
 	solveSecs float64
+	skipped   map[string]bool // generated, but open in the lock: not solved
 }
 
 // runProperty encodes all functions of a property and solves the obligations tagged with it.
@@ -236,6 +241,10 @@ func (c *Ctx) runProperty(prop string, timeout, seed int, escalate bool, skip fu
 				o.Note = "function uses unsupported constructs: " + strings.Join(fe.unsupp, "; ")
 			}
 			if skip != nil && skip(o.ID) {
+				if out.skipped == nil {
+					out.skipped = map[string]bool{}
+				}
+				out.skipped[o.ID] = true
 				continue
 			}
 			jobs = append(jobs, job{fe, o})
@@ -258,9 +267,36 @@ func (c *Ctx) runProperty(prop string, timeout, seed int, escalate bool, skip fu
 	t1 := time.Now()
 	dir := workDir("check-" + prop)
 	out.results = solveAll(jobs, dir, timeout, seed, escalate, 16)
+	// Second chance, one at a time: with 16 solvers running at once a query that needs a few seconds can run into its
+	// time limit.  Obligations that were not refuted (no `sat`) are tried again alone, with twice the time, before
+	// they are reported; a handful only - a mass failure is not a load problem.
+	var again []int
+	for i := range out.results {
+		r := &out.results[i]
+		if !r.OK && !r.Obl.Cover && r.Status != "sat" && !retrySkip[r.Obl.ID] {
+			again = append(again, i)
+		}
+	}
+	if len(again) > 0 && len(again) <= 8 && !noRetry {
+		for _, i := range again {
+			r2 := solveOne(jobs[i].fe, jobs[i].o, dir, 2*timeout, seed, true)
+			if os.Getenv("VERIF_DEBUG") != "" {
+				fmt.Fprintf(os.Stderr, "retry %s: %s %v\n", jobs[i].o.ID, r2.Status, r2.Tried)
+			}
+			if r2.OK {
+				r2.Solver += " (retried alone)"
+				out.results[i] = r2
+			}
+		}
+	}
 	out.solveSecs = time.Since(t1).Seconds()
 	return out
 }
+
+var noRetry bool
+
+// retrySkip: obligations that are not worth a second, sequential attempt (open in the lock that is being rewritten)
+var retrySkip = map[string]bool{}
 
 func envInt(name string, def int) int {
 	if v := os.Getenv(name); v != "" {
@@ -295,11 +331,14 @@ func cmdLock(args []string) int {
 		// drop this property's old entries
 		for id, e := range lock {
 			if hasProp(e.Props, p) {
+				if e.Status == "open" && os.Getenv("VERIF_LOCK_RETRY_OPEN") == "" {
+					retrySkip[id] = true
+				}
 				delete(lock, id)
 			}
 		}
 		// stability bar: must discharge within half the quick budget
-		out := c.runProperty(p, max(2, *timeout/2), 0, false, nil)
+		out := c.runProperty(p, max(2, *timeout/2), 0, true, nil)
 		for _, e := range out.encErrs {
 			fmt.Fprintln(os.Stderr, "encoder error:", e)
 		}
@@ -453,6 +492,48 @@ func cmdCheck(args []string) int {
 		why := "obligation not discharged: solver answered " + r.Status
 		viols = append(viols, viol{r.Obl.ID, why, "", r})
 	}
+	// Robustness against harmless edits.  The identifier of an annotation-free obligation (nil, bounds, fspath, ...)
+	// contains the source text of the expression, so renaming a local renames the obligation:
+	//  - a locked, proved obligation of such a kind that is no longer generated is not an alarm (its successor is
+	//    generated under a new name and has to discharge like any new obligation);
+	//  - a new failing obligation of such a kind is taken to be a renamed `open` one as long as the function has
+	//    at least as many open entries of that kind in the lock that were not generated under their old name.
+	// Obligations of contract clauses (post, pre, assert, loop invariants) are matched by name; only a trailing
+	// ordinal (#k: k-th return or k-th occurrence) may disappear while another instance of the clause remains.
+	renamedBudget := map[string]int{}
+	for id, e := range lock {
+		if hasProp(e.Props, *prop) && e.Status == "open" && !seen[id] && !out.skipped[id] && textKeyed(id) {
+			renamedBudget[funcKind(id)]++
+		}
+	}
+	newFail := map[string]int{}
+	for _, v := range viols {
+		if _, inLock := lock[v.id]; !inLock && v.res != nil && textKeyed(v.id) {
+			newFail[funcKind(v.id)]++
+		}
+	}
+	nRenamedOpen, nRenamedProved := 0, 0
+	{
+		kept := viols[:0]
+		for _, v := range viols {
+			_, inLock := lock[v.id]
+			if !inLock && v.res != nil && textKeyed(v.id) && newFail[funcKind(v.id)] <= renamedBudget[funcKind(v.id)] {
+				openList = append(openList, v.id+" (open under an earlier name)")
+				nRenamedOpen++
+				nOb--
+				continue
+			}
+			kept = append(kept, v)
+		}
+		viols = kept
+	}
+	generatedBase := map[string]bool{}
+	for id := range seen {
+		generatedBase[oblBase(id)] = true
+	}
+	for id := range out.skipped {
+		generatedBase[oblBase(id)] = true
+	}
 	// locked obligations that are no longer generated
 	for id, e := range lock {
 		if !hasProp(e.Props, *prop) || seen[id] {
@@ -462,17 +543,51 @@ func cmdCheck(args []string) int {
 			openList = append(openList, id+" ("+e.Note+")")
 			continue
 		}
+		if textKeyed(id) || e.Status == "cover" && generatedBase[oblBase(id)] {
+			nRenamedProved++
+			continue
+		}
+		if oblBase(id) != id && generatedBase[oblBase(id)] {
+			nRenamedProved++
+			continue
+		}
 		viols = append(viols, viol{id, "locked obligation is no longer generated (function, loop or contract clause disappeared or no longer binds)", "", nil})
 	}
 	for _, e := range out.encErrs {
 		viols = append(viols, viol{"encoder", "encoder failed: " + strings.SplitN(e, "\n", 2)[0], e, nil})
 	}
 	sort.Strings(openList)
+	replayDir := filepath.Join(verifRoot(), "replays", *prop)
+	// bounded stand-in (labelled bounded, never counted as proved): exhaustive run of the real code over a small universe
+	var boundedInfo map[string]any
+	type bviol struct{ id, msg string }
+	var bviols []bviol
+	if pkg, ok := boundedHarness[*prop]; ok {
+		var fails [][2]string
+		boundedInfo, fails = runBounded(c, *prop, *tier, pkg, replayDir)
+		for _, f := range fails {
+			id := "bounded:" + f[0]
+			if kf, ok := known[id]; ok {
+				knownHit = append(knownHit, fmt.Sprintf("KNOWN-FINDING: property=%s %s (%s)", *prop, kf.What, id))
+				continue
+			}
+			bviols = append(bviols, bviol{id, f[1]})
+		}
+	}
 	// report
 	for _, k := range knownHit {
 		fmt.Println(k)
 	}
-	replayDir := filepath.Join(verifRoot(), "replays", *prop)
+	for _, b := range bviols {
+		d := filepath.Join(replayDir, sanitizeFile(b.id))
+		_ = os.MkdirAll(d, 0o755)
+		rb, _ := json.MarshalIndent(map[string]any{"property": *prop, "obligation": b.id, "kind": "bounded stand-in: failing input found on the real code",
+			"failing_input": b.msg, "rerun": boundedInfo["command"]}, "", " ")
+		path := filepath.Join(d, "replay.json")
+		_ = os.WriteFile(path, rb, 0o644)
+		fmt.Printf("VIOLATION property=%s replay=%s obligation=%s\n", *prop, path, b.id)
+		fmt.Fprintf(os.Stderr, "  %s: %s\n", b.id, b.msg)
+	}
 	for _, v := range viols {
 		path, found := writeReplay(c, replayDir, *prop, v.id, v.why, v.res, out)
 		suffix := ""
@@ -507,6 +622,7 @@ func cmdCheck(args []string) int {
 		"covers":                          nCover,
 		"covers_satisfiable_or_undecided": nCoverOK,
 		"new_obligations_not_in_lock":     nNew,
+		"renamed_text_keyed_obligations":  map[string]int{"locked_proved_not_regenerated_under_old_name": nRenamedProved, "failing_matched_to_open_entries": nRenamedOpen},
 		"open_not_claimed":                openList,
 		"known_findings":                  knownHit,
 		"by_solver":                       solverCount,
@@ -515,6 +631,9 @@ func cmdCheck(args []string) int {
 		"samples":                         samples,
 		"unsupported":                     out.unsupp,
 	}
+	if boundedInfo != nil {
+		cov["bounded_stand_in"] = boundedInfo
+	}
 	if *tier == "thorough" {
 		thorough(c, *prop, cov, seed)
 	}
@@ -522,7 +641,7 @@ func cmdCheck(args []string) int {
 		cov["samples"] = []any{"(no obligation discharged)"}
 	}
 	ev := evidence{PropertyID: *prop, Tier: *tier, Seed: seed, Level: "proof", Coverage: cov, Assumptions: assumptions,
-		WallS: round3(time.Since(t0).Seconds()), Violations: len(viols)}
+		WallS: round3(time.Since(t0).Seconds()), Violations: len(viols) + len(bviols)}
 	eb, _ := json.MarshalIndent(ev, "", " ")
 	_ = os.MkdirAll(filepath.Join(verifRoot(), "evidence"), 0o755)
 	_ = os.WriteFile(filepath.Join(verifRoot(), "evidence", *prop+".json"), eb, 0o644)
@@ -533,10 +652,58 @@ func cmdCheck(args []string) int {
 		fmt.Printf("VIOLATION property=%s replay=%s obligation=none no-failing-input-found\n", *prop, filepath.Join(replayDir, "no-obligations.json"))
 		return 1
 	}
-	if len(viols) > 0 {
+	if len(viols) > 0 || len(bviols) > 0 {
 		return 1
 	}
 	return 0
+}
+
+// boundedHarness: properties with a bounded stand-in, and the package whose replay template holds TestVerifBounded.
+var boundedHarness = map[string]string{"C05": "internal/store", "C06": "internal/store"}
+
+// runBounded runs TestVerifBounded of the package's replay template (go test -overlay) for the property.
+func runBounded(c *Ctx, prop, tier, pkg, replayDir string) (map[string]any, [][2]string) {
+	tmpl := filepath.Join(verifRoot(), "replay", "templates", pkg, "_package_test.go")
+	dir := filepath.Join(replayDir, "bounded")
+	_ = os.MkdirAll(dir, 0o755)
+	ov := map[string]any{"Replace": map[string]string{filepath.Join(c.repo, pkg, "zz_verif_replay_test.go"): tmpl}}
+	ob, _ := json.Marshal(ov)
+	ovFile := filepath.Join(dir, "overlay.json")
+	_ = os.WriteFile(ovFile, ob, 0o644)
+	ctx, cancel := context.WithTimeout(context.Background(), 15*time.Minute)
+	defer cancel()
+	cmd := exec.CommandContext(ctx, "go", "test", "-overlay", ovFile, "-vet=off", "-count=1", "-timeout", "14m", "-v", "-run", "TestVerifBounded", "./"+pkg)
+	cmd.Dir = c.repo
+	cmd.Env = append(os.Environ(), "GOFLAGS=-mod=mod", "GOPROXY=off", "GOSUMDB=off", "GOTOOLCHAIN=local", "VERIF_PROPERTY="+prop, "VERIF_TIER="+tier)
+	var outb bytes.Buffer
+	cmd.Stdout = &outb
+	cmd.Stderr = &outb
+	t0 := time.Now()
+	_ = cmd.Run()
+	text := outb.String()
+	_ = os.WriteFile(filepath.Join(dir, "output.txt"), []byte(text), 0o644)
+	info := map[string]any{"label": "bounded", "counted_as_proved": false, "harness": tmpl + " (TestVerifBounded)",
+		"command": "VERIF_PROPERTY=" + prop + " VERIF_TIER=" + tier + " " + strings.Join(cmd.Args, " "),
+		"bound":   "every repository over {2 configs, 2 layers, image inner, image outer listing inner as a layer, index of inner, artifact with subject inner or a layer} x top-level state absent/untagged/tagged x 2 entry orders x 8 policies x (blob of the inner image deleted behind the index or not), grace period off: 2160 repositories per store; quick: memory store, thorough: memory and directory store",
+		"seconds": round3(time.Since(t0).Seconds()),
+		"decides": "closure of the retention rules (C05) / garbage removed, no entry without content, second pass idle (C06), which the step contracts on repoGarbageCollect do not decide"}
+	var fails [][2]string
+	done := false
+	for _, l := range strings.Split(text, "\n") {
+		if i := strings.Index(l, "BOUNDED-FAIL:"); i >= 0 {
+			rest := strings.TrimSpace(l[i+len("BOUNDED-FAIL:"):])
+			id, msg, _ := strings.Cut(rest, ": ")
+			fails = append(fails, [2]string{id, msg})
+		}
+		if i := strings.Index(l, "BOUNDED-DONE:"); i >= 0 {
+			done = true
+			info["result"] = strings.TrimSpace(l[i+len("BOUNDED-DONE:"):])
+		}
+	}
+	if !done {
+		fails = append(fails, [2]string{"harness-did-not-finish", "the bounded harness did not run to completion (build failure, panic or time-out): see " + filepath.Join(dir, "output.txt")})
+	}
+	return info, fails
 }
 
 func round3(f float64) float64 { return float64(int(f*1000+0.5)) / 1000 }
@@ -616,4 +783,38 @@ func partOf(r *Result) int {
 		return r.Part
 	}
 	return -1
+}
+
+// textKeyed: obligations generated without annotation, named after the source text they guard.
+func textKeyed(id string) bool {
+	_, rest, ok := strings.Cut(id, "#")
+	if !ok {
+		return false
+	}
+	kind := rest
+	if i := strings.IndexAny(rest, ":#"); i >= 0 {
+		kind = rest[:i]
+	}
+	switch kind {
+	case "nil", "bounds", "mapwrite", "relock", "fspath", "neg", "panic", "div", "typeassert", "chan":
+		return true
+	}
+	return strings.HasSuffix(kind, ".autoinv")
+}
+
+// funcKind: "<function>#<kind>" of an obligation id.
+func funcKind(id string) string {
+	fn, rest, _ := strings.Cut(id, "#")
+	kind := rest
+	if i := strings.IndexAny(rest, ":#"); i >= 0 {
+		kind = rest[:i]
+	}
+	return fn + "#" + kind
+}
+
+var reOrdinal = regexp.MustCompile(`#\d+$`)
+
+// oblBase strips a trailing occurrence ordinal.
+func oblBase(id string) string {
+	return reOrdinal.ReplaceAllString(id, "")
 }
